@@ -203,11 +203,35 @@ fn check_small(case: &Case, l: &mut Local) -> Verdict {
     Verdict::Pass { nontrivial }
 }
 
+fn gen_flag(src: &mut Src, _t: Tier) -> Case {
+    let v = super::c01::flag_slice();
+    v[(src.raw() as usize).min(v.len() - 1)].clone()
+}
+
+/// the flag slice of C01 (i, m, s x legacy/u) x all haystacks over {a, CR, LF} up to length 3 x every start
+fn check_flag(case: &Case, l: &mut Local) -> Verdict {
+    static HAYS: std::sync::OnceLock<Vec<String>> = std::sync::OnceLock::new();
+    let hays = HAYS.get_or_init(|| all_strings(&[0x61, 0x0D, 0x0A], 3));
+    let mut nontrivial = false;
+    for h in hays {
+        for s in starts_of(h) {
+            let c = Case { hay: h.clone(), start: s, ..case.clone() };
+            match check(&c, l) {
+                Verdict::Fail(m) => return Verdict::Fail(format!("on \"{}\" from {}: {}", show_str(h), s, m)),
+                Verdict::Pass { nontrivial: n } => nontrivial |= n,
+                _ => {}
+            }
+        }
+    }
+    Verdict::Pass { nontrivial }
+}
+
+pub static VF: Variant = Variant { name: "exhaustive_flag_slice", choice_len: 1, gen: gen_flag, check: check_flag };
 pub static VX: Variant = Variant { name: "exhaustive_small_patterns", choice_len: 1, gen: gen_small, check: check_small };
 pub static V: Variant = Variant { name: "iteration_unfold", choice_len: 400, gen, check };
 
 pub fn variants() -> Vec<&'static Variant> {
-    vec![&V, &VX]
+    vec![&V, &VX, &VF]
 }
 
 pub fn run(ctx: &Ctx) -> i32 {
@@ -215,10 +239,12 @@ pub fn run(ctx: &Ctx) -> i32 {
     let slice = super::c01::small_slice(true);
     let part: Vec<Case> = slice.iter().enumerate().filter(|(i, _)| ctx.tier == Tier::Thorough || i % 4 == 0).map(|(_, c)| c.clone()).collect();
     ctx.run_list(&VX, &part);
+    let fpart: Vec<Case> = super::c01::flag_slice().iter().enumerate().filter(|(i, _)| ctx.tier == Tier::Thorough || i % 4 == 0).map(|(_, c)| c.clone()).collect();
+    ctx.run_list(&VF, &fpart);
     ctx.run_variant(&V, ctx.scale(500_000, 8_000_000));
     ctx.finish(
         "exploration",
-        "(bounded-exhaustive) the small-pattern grammar of C01 (a quarter of it in the quick tier) x all haystacks over {a, e-acute} up to length 3 x every start incl. len and len+1; plus random patterns biased to empty / adjacent / multi-byte matches x haystacks (<=12/14 chars) x every start (incl. len and len+1); both executors, UTF-8 and ASCII iterators. Oracle = unfold of the library's own first-match from a cursor (end of a non-empty match, one character past an empty one) plus history invariants after every next(): strictly increasing, non-overlapping, <= chars+1 items, None sticky for 10 further calls, nothing from start > len. Non-trivial = >= 2 matches with an empty match or two adjacent matches.",
+        "(bounded-exhaustive) the small-pattern grammar of C01 (a quarter of it in the quick tier) x all haystacks over {a, e-acute} up to length 3 x every start incl. len and len+1; the flag slice of C01 (all i, m, s x legacy/u sets; a quarter of it in the quick tier) x all haystacks over {a, CR, LF} up to length 3 x every start; plus random patterns biased to empty / adjacent / multi-byte matches x haystacks (<=12/14 chars) x every start (incl. len and len+1); both executors, UTF-8 and ASCII iterators. Oracle = unfold of the library's own first-match from a cursor (end of a non-empty match, one character past an empty one) plus history invariants after every next(): strictly increasing, non-overlapping, <= chars+1 items, None sticky for 10 further calls, nothing from start > len. Non-trivial = >= 2 matches with an empty match or two adjacent matches.",
         &["first-match correctness itself (incl. visibility of text before start) is C01's oracle, not this one", "fuel hook cuts runaway searches (counted)"],
     )
 }
